@@ -10,7 +10,8 @@ def run_history(seed, balance=False, steps=60):
     rnd = random.Random(seed)
     nb = 2 if balance else 1
     snd = Z.ZMQSender([f'tcp://*:{7000 + 2 * i}' for i in range(nb)], 'srv', balance=balance)
-    clients = [dict(cid=f'c{i}', eph=(1 if (i >= 1 and rnd.random() < 0.5) else 0), pull=snd.pulls[i % nb], req=0, got=0, pending=False, tracked=False, prev=-1, stalled=False) for i in range(rnd.randint(1, 3))]
+    share = rnd.random() < 0.4       # replicas: several live connections may share one client id (they differ in their unique id)
+    clients = [dict(cid=('c0' if share else f'c{i}'), uid=f'u{i}', eph=(1 if (i >= 1 and rnd.random() < 0.5) else 0), pull=snd.pulls[i % nb], req=0, got=0, pending=False, tracked=False, prev=-1, stalled=False) for i in range(rnd.randint(1, 3))]
     published, bad, events = [], [], []
     next_payload = 0
     fed = False
@@ -21,7 +22,9 @@ def run_history(seed, balance=False, steps=60):
             if cl['stalled']:
                 continue
             for _ in range(rnd.choice([1, 1, 2])):          # a fast consumer re-requests (prefetch + poll-timeout request)
-                env = {'cid': cl['cid'], 'uid': 'u', 'mid': cl['prev']}
+                env = {'cid': cl['cid'], 'uid': cl['uid'], 'mid': cl['prev']}
+                if not cl['tracked'] and rnd.random() < 0.5:      # handshake: a connection that has not heard the publisher yet says so first
+                    cl['pull'].feed([json.dumps(dict(env, new=True)).encode()])
                 if cl['eph']:
                     env['eph'] = cl['eph']
                 cl['pull'].feed([json.dumps(env).encode()])
@@ -60,7 +63,7 @@ def run_history(seed, balance=False, steps=60):
                 if balance and len(used) != 1:
                     bad.append(f'C07.one_branch: one send published on PUB sockets {used}')
                 for cl in clients:
-                    tracked = any(k.startswith(cl['cid']) for k in snd.clients)
+                    tracked = (cl['cid'] + cl['uid']) in snd.clients
                     if tracked and (not balance or snd.pulls.index(cl['pull']) in used):
                         cl['got'] += 1
                         cl['pending'] = False
@@ -69,6 +72,11 @@ def run_history(seed, balance=False, steps=60):
                             bad.append(f'C04.one_publish_per_request: {cl["cid"]} was sent {cl["got"]} frames for {cl["req"]} requests')
                         if cl['stalled'] and not cl['eph'] and cl['got'] - cl['got_at_stall'] > 2:
                             bad.append(f'C04.bound: {cl["cid"]} stalled after {cl["req_at_stall"]} requests / {cl["got_at_stall"]} frames and was still sent {cl["got"] - cl["got_at_stall"]} more')
+        for cl in clients:      # nobody closes and nothing is silent for ZMQ_CONN_TIMEOUT in these short histories: a connection the publisher has accepted stays in its table
+            if cl['tracked'] and cl.get('seen_in_table') and (cl['cid'] + cl['uid']) not in snd.clients:
+                bad.append(f'C04.removal: connection {cl["cid"]}/{cl["uid"]} left the table without CLOSE and without being silent for ZMQ_CONN_TIMEOUT')
+            if (cl['cid'] + cl['uid']) in snd.clients:
+                cl['seen_in_table'] = True
         if bad:
             return bad, events
     return [], events
